@@ -61,6 +61,14 @@ func scenC09(r *Run) {
 		X := fmt.Sprintf("https://%s/a/u%d", H, xn)
 		Y := f.simpleActor(H)
 		Z := f.simpleActor(otherHost(H, t.Draw(2)))
+		if t.Chance(1, 2) {
+			// a different actor on another host under the very same path as the owner
+			zh := otherHost(H, t.Draw(2))
+			Z = fmt.Sprintf("https://%s/a/u%d", zh, xn)
+			_, zd := f.actorDoc(zh, xn, nil)
+			zd["name"] = "twin"
+			f.Serve(Z, zd)
+		}
 		mk := func(remote bool) CItem {
 			k := t.Draw(12)
 			n := f.next()
@@ -248,7 +256,25 @@ func scenC09(r *Run) {
 		if t.Chance(1, 3) {
 			key = "comments"
 		}
-		f.Serve(P, Doc{"id": P, "type": "Note", "name": fmt.Sprintf("T%dx", pn), "content": "<p>the post</p>", "attributedTo": author, key: l.RootURL})
+		pdoc := Doc{"id": P, "type": "Note", "name": fmt.Sprintf("T%dx", pn), "content": "<p>the post</p>", "attributedTo": author, key: l.RootURL}
+		if t.Chance(1, 5) {
+			// the post exists only embedded in its Create activity; its own URL answers 404. No reply's
+			// target can then be resolved, so none may be shown as genuine.
+			carrier := fmt.Sprintf("https://%s/act/carrier%d", H, pn)
+			f.Serve(carrier, Doc{"id": carrier, "type": "Create", "actor": author, "object": pdoc})
+			for i := range l.RootItems {
+				l.RootItems[i].Err = true
+			}
+			for _, pg := range l.Pages {
+				for i := range pg.Items {
+					pg.Items[i].Err = true
+				}
+			}
+			kinds = append(kinds, "PARENT-ONLY-EMBEDDED(all entries unresolvable)")
+			c09Compare(r, f, carrier, l, kinds, "replies")
+			return
+		}
+		f.Serve(P, pdoc)
 		c09Compare(r, f, P, l, kinds, "replies")
 	case 2:
 		// posts opened directly: shown with an author only if author and post share a host
